@@ -494,15 +494,23 @@ def parse_print_constraints(text):
         if not b.strip():
             continue
         name = b.split()[0]
-        types, cur = {}, None
+        types, cur, open_c = {}, None, False
         for line in b.split("\n"):
             m = re.match(r"([A-Za-z][A-Za-z0-9-]*) ::= ", line)
+            if open_c:
+                # a constraint that is still a TYPE is printed through asn1print_expr, which (under
+                # -print-constraints) writes that type's own `-- ... constraints` lines into the middle
+                if not line.startswith("-- "):
+                    types[cur]["combined"] += " " + line
+                    open_c = types[cur]["combined"].count("(") > types[cur]["combined"].count(")")
+                continue
             if m:
                 cur = m.group(1)
                 types[cur] = {"combined": None, "practical": None}
             elif cur and line.startswith("-- Combined constraints: "):
                 types[cur]["combined"] = line[len("-- Combined constraints: "):]
-            elif cur and line.startswith("-- Practical constraints"):
+                open_c = types[cur]["combined"].count("(") > types[cur]["combined"].count(")")
+            elif cur and line.startswith("-- Practical constraints") and types[cur]["practical"] is None:
                 types[cur]["practical"] = line.split("): ", 1)[-1].strip()
         mods[name] = {"text": b.strip(), "types": types}
     return mods
@@ -807,6 +815,10 @@ def main(tier):
         opts = OPTION_SETS[i % len(OPTION_SETS)] if i < 2 * len(OPTION_SETS) else rng.choice(OPTION_SETS)
         extras = {0: ["dforms"], 4: ["dupfile"]}.get(i % 9, [])
         rich.append((m, opts, extras))
+    # dedicated witness of finding C12-includes-keyword-dropped (kept in every run, so that a fix shows up)
+    wi = "WitIncl DEFINITIONS ::= BEGIN\nBase ::= INTEGER (0..%d)\nInl ::= INTEGER (INCLUDES INTEGER (1..%d))\nRef ::= INTEGER (INCLUDES Base | %d)\nEND\n" % (
+        rng.range(50, 99), rng.range(2, 40), rng.range(100, 200))
+    rich.append(({"name": "WitIncl", "text": wi, "blocks": ["witness-includes-inline"], "alph": {}, "ids": []}, OPTION_SETS[0], []))
     rich_futs = [pool.submit(case_rich, ctx, i, m, opts, extras) for i, (m, opts, extras) in enumerate(rich)]
     nclash = 14 if quick else 90
     csets = []
@@ -1015,6 +1027,9 @@ def main(tier):
             rc1, same, se1, t1, t2 = r["fix"]
             if rc1 == 0 and same:
                 run.count("rich_fixpoint_ok")
+                if "witness-includes-inline" in m["blocks"]:
+                    run.violation("oracle:finding-not-reproduced", dict(rep, what="the witness of C12-includes-keyword-dropped is a print/parse fixpoint: "
+                                  "finding fixed? (update findings.d/C12.json)"), no_input=True)
             else:
                 cls = classify_rich_fixpoint(m, t1.decode("latin1"), rc1, se1)
                 if cls:
@@ -1414,7 +1429,17 @@ def classify_rich_fixpoint(m, t1, rc1, se1):
         return "C12-nested-of"
     if rc1 == 0 and text_has_triple_paren(m["text"]) and text_has_double_paren_after_print(t1):
         return "C12-paren-collapse"
+    if rc1 != 0 and includes_inline_type(m["text"]) and re.search(r"\(\s+(%s)\b" % BUILTIN_TYPE_WORDS, t1):
+        return "C12-includes-keyword-dropped"
     return None
+
+
+BUILTIN_TYPE_WORDS = "INTEGER|BOOLEAN|NULL|REAL|OCTET|BIT|ENUMERATED|SEQUENCE|SET|CHOICE|[A-Za-z0-9]+String|OBJECT|RELATIVE-OID"
+
+
+def includes_inline_type(text):
+    """root cause predicate of C12-includes-keyword-dropped: `INCLUDES` followed by a type that is not a reference"""
+    return bool(re.search(r"\bINCLUDES\s+(\[[^\]]*\]\s*)?(%s)\b" % BUILTIN_TYPE_WORDS, strip_comments(text)))
 
 
 def classify_corpus_fixpoint(src, t1, r):
@@ -1423,6 +1448,8 @@ def classify_corpus_fixpoint(src, t1, r):
         return "C12-nested-of"
     if r["E1"] == 0 and text_has_triple_paren(src) and text_has_double_paren_after_print(t1):
         return "C12-paren-collapse"
+    if r["E1"] != 0 and includes_inline_type(src) and re.search(r"\(\s+(%s)\b" % BUILTIN_TYPE_WORDS, t1):
+        return "C12-includes-keyword-dropped"
     return None
 
 
